@@ -752,7 +752,7 @@ func init() {
 		Floors: func(tier string, m map[string]int64) []string {
 			f := &floorCheck{m: m}
 			f.atLeast("phaseA:containers", 500)
-			f.atLeast("phaseA:overlapping-call-pairs", 100000)
+			f.atLeast("phaseA:overlapping-call-pairs", 20000)
 			f.atLeast("phaseB:histories", 200)
 			f.atLeast("phaseB:porcupine-ok", 200)
 			for k, v := range m {
